@@ -153,8 +153,173 @@ def c_is_io():
     return _wrap("check_region_is_io", _run_is_io, ["litex.soc.integration.soc.SoCBusHandler.check_region_is_io", "litex.soc.integration.soc.SoCBusHandler.check_region_is_in (run unmodified inside the cut loop)"],
                  "unbounded symbolic io_regions; symbolic region (size >= 1)", need=("loop0.init", "loop0.step"), extra_cover=lambda s: s["returned"] >= 1)
 
+# =====================================================================================================================================
+# add_region: fixed origin (SoCRegion), SoCIORegion, unsupported object - from an arbitrary handler state
+# =====================================================================================================================================
+def _combined(d, f):
+    """field f of entry x of dict d = symbolic prefix followed by the concretely added items"""
+    seq = d.seq
+    def g(i):
+        t = seq.fn[f](i)
+        for j, (k, v) in reversed(list(enumerate(d.extra))):
+            xv = getattr(v, f); xt = tobool(xv) if FIELDS[f] == "bool" else toint(xv)
+            t = z3.If(i == seq.len + j, xt, t)
+        return t
+    return g
+def _pair_ok(d):
+    O = lambda f: _combined(d, f)
+    return lambda x, y: z3.Or(O("linker")(x), O("linker")(y), z3.Not(ov_t(O("origin")(x), O("size_pow2")(x), O("origin")(y), O("size_pow2")(y))))
+def _disjoint(d, n=None):
+    a, b_ = z3.Ints("a b"); n = toint(d.total_len()) if n is None else n
+    return z3.ForAll([a, b_], z3.Implies(z3.And(0 <= a, a < b_, b_ < n), _pair_ok(d)(a, b_)))
+def _overlap_loops(d):
+    """sidecar invariants of the two loops of check_regions_overlap over dict d (same as contracts/C13_alloc.py)"""
+    a, b_ = z3.Ints("a b"); pair_ok = _pair_ok(d)
+    def tl(): return toint(d.total_len())
+    return {0: dict(havoc={"i": "int"}, inv=lambda L: z3.And(toint(L["i"]) >= 0, toint(L["i"]) <= tl(),
+                        z3.ForAll([a, b_], z3.Implies(z3.And(0 <= a, a < toint(L["i"]), a < b_, b_ < tl()), pair_ok(a, b_))))),
+            1: dict(pos="j", inv=lambda L: z3.And(toint(L["i"]) >= 0, toint(L["i"]) < tl(),
+                        z3.ForAll([b_], z3.Implies(z3.And(toint(L["i"]) < b_, b_ < toint(L["i"]) + 1 + toint(L["j"])), pair_ok(toint(L["i"]), b_))),
+                        z3.ForAll([a, b_], z3.Implies(z3.And(0 <= a, a < toint(L["i"]), a < b_, b_ < tl()), pair_ok(a, b_)))))}
+
+def _bus_state(ctx, address_width=32):
+    """arbitrary handler state satisfying the class invariant: names unique over regions and io_regions, non-linker windows of `regions`
+    pairwise disjoint, non-linker windows of `io_regions` pairwise disjoint"""
+    ctx.solver.set("timeout", FEAS_MS)
+    seq = SymRecordSeq("R", FIELDS); regs = NDict(seq); ios = SymRecordSeq("IO", FIELDS); ioregs = NDict(ios)
+    ctx.assume(SymBool(z3.And(seq.len >= 0, ios.len >= 0)))
+    ctx.assume(SymBool(z3.And(keys_unique(regs), keys_unique(ioregs), keys_disjoint(regs, ioregs), _disjoint(regs, seq.len), _disjoint(ioregs, ios.len))))
+    bus = _quiet(S.SoCBusHandler.__new__(S.SoCBusHandler))
+    bus.regions = regs; bus.io_regions = ioregs; bus.address_width = address_width; bus.masters = {}; bus.slaves = {}
+    return bus, seq, regs, ios, ioregs
+
+def _install_overlap(bus, d_of):
+    """bus.check_regions_overlap := the real function with both loops cut (invariants over the dict it is called with)"""
+    def call(regions, check_linker=False):
+        loops = _overlap_loops(regions); vc = VC(loops)
+        fn, src = rewrite(S.SoCBusHandler.check_regions_overlap, loops, vc)
+        assert src.count("__vc.loop_begin(0,") == 1 and src.count("__vc.for_begin(1,") == 1, "loop structure of check_regions_overlap changed"
+        return fn(bus, regions, check_linker)
+    bus.check_regions_overlap = call
+
+def _run_add_fixed(wrong, address_width=32):
+    stats = dict(accepted=0, raised=0, accepted_cached=0, accepted_uncached=0)
+    def run(ctx):
+        bus, seq, regs, ios, ioregs = _bus_state(ctx, address_width)
+        bus.io_regions_check = SymBool(z3.Bool("io_regions_check"))
+        r = _mk_region("n"); name = Name(z3.Int("name"))
+        ctx.assume((r.origin >= 0) & (r.size >= 1) & (r.size_pow2 >= r.size))          # SoCRegion.__init__(proof): size_pow2 >= size for size >= 1
+        dup = z3.Or(regs.has(name.t), ioregs.has(name.t))
+        loops, some = _is_io_loops(ios, r); vc = AVC(loops)
+        is_io_fn, src = rewrite(S.SoCBusHandler.check_region_is_io, loops, vc)
+        bus.check_region_is_io = lambda region: is_io_fn(bus, region)
+        _install_overlap(bus, regs)
+        is_io = some(ios.len); ca = tobool(r.cached); ioc = tobool(bus.io_regions_check)
+        io_bad = z3.And(ioc, z3.Or(z3.And(is_io, ca), z3.And(z3.Not(is_io), z3.Not(ca))))
+        a = z3.Int("a")
+        ro, rp, rl = toint(r.origin), toint(r.size_pow2), tobool(r.linker)
+        ovl = z3.Exists([a], z3.And(0 <= a, a < seq.len, z3.Not(seq.fn["linker"](a)), z3.Not(rl), ov_t(seq.fn["origin"](a), seq.fn["size_pow2"](a), ro, rp)))
+        try:
+            S.SoCBusHandler.add_region(bus, name, r)
+        except S.SoCError:
+            elab.restore_stderr(); stats["raised"] += 1
+            ctx.check("raise=>(duplicate-name-or-IO/cached-rule-broken-or-window-overlaps-an-existing-region)", z3.Or(dup, io_bad, ovl))
+            ctx.check("raise.io_regions-unchanged", z3.BoolVal(bus.io_regions is ioregs and not ioregs.extra))
+            return
+        stats["accepted"] += 1
+        ctx.check("post.name-was-not-used-by-any-region-or-IO-region", z3.Not(dup))
+        ctx.check("post.added-exactly-this-region-under-this-name;io_regions-unchanged", z3.BoolVal(bus.regions is regs and len(regs.extra) == 1 and regs.extra[0][0] is name and regs.extra[0][1] is r and bus.io_regions is ioregs and not ioregs.extra))
+        ctx.check("post.invariant(pairwise-disjoint-windows)", _disjoint(regs))
+        ctx.check("post.window-disjoint-from-every-existing-non-linker-region", z3.Not(ovl))
+        ctx.check("post.io-check=>uncached-region-lies-inside-an-IO-region", z3.Implies(z3.And(ioc, z3.Not(ca)), is_io))
+        ctx.check("post.io-check=>region-inside-an-IO-region-is-uncached", z3.Implies(z3.And(ioc, is_io), z3.Not(ca)))
+        ctx.check("post.names-stay-unique", z3.And(z3.Not(regs.has.__func__(_Old(regs), name.t)), z3.Not(ioregs.has(name.t))))
+        # candidate finding: nothing confines a FIXED-origin region to the address space of the bus
+        ctx.check("finding.fixed-origin-region-lies-inside-the-address-space", toint(r.origin) + toint(r.size) <= 2**address_width)
+        if wrong: ctx.check("wrong.accepted=>cached", ca)
+    paths, obl = explore(run, max_paths=4000)
+    return paths, obl, stats
+
+class _Old:
+    """view of an NDict without its concretely added items"""
+    def __init__(self, d): self.seq, self.key, self.extra = d.seq, d.key, []
+
+def _replay_outside(address_width=32):
+    """native replay of the finding candidate on the unmodified functions"""
+    bus = S.SoCBusHandler(address_width=address_width); elab.restore_stderr()
+    logging.getLogger("SoCBusHandler").disabled = True
+    try: bus.add_region("x", S.SoCRegion(origin=2**address_width, size=0x1000))
+    except S.SoCError: elab.restore_stderr(); return dict(reproduced=False)
+    g = bus.regions["x"]
+    return dict(reproduced=g.origin + g.size > 2**address_width, call=f"SoCBusHandler(address_width={address_width}).add_region('x', SoCRegion(origin=2**{address_width}, size=0x1000))", granted=f"origin=0x{g.origin:x} size=0x{g.size:x}")
+
+def c_add_fixed():
+    out = _wrap("add_region[fixed-origin]", _run_add_fixed, ["litex.soc.integration.soc.SoCBusHandler.add_region (fixed-origin branch, io_regions_check symbolic)",
+                "litex.soc.integration.soc.SoCBusHandler.check_region_is_io (loop-cut, inlined)", "litex.soc.integration.soc.SoCBusHandler.check_regions_overlap (loop-cut, inlined)"],
+                "arbitrary handler state satisfying the class invariant (unbounded regions and io_regions, symbolic names); symbolic region, symbolic cached / linker / io_regions_check",
+                need=("loop0.init", "loop0.step", "loop1.init", "loop1.step"), extra_cover=lambda s: s["accepted"] >= 2 and s["raised"] >= 3)
+    for r_ in out["results"]:
+        if ".finding." in r_["name"]:
+            r_["kind"] = "finding-witness"; r_["what"] = "add_region accepts a fixed-origin region that lies beyond 2**address_width (no range check on fixed origins)"
+            if r_["status"] == NOINPUT:
+                rp = _replay_outside(); r_["replay_info"] = rp
+                if rp.get("reproduced"): r_["status"] = VIOLATED; r_["replay"] = "tools/replay_add_region_outside_address_space.py"
+    return out
+
+def _run_add_io(wrong):
+    stats = dict(accepted=0, raised=0)
+    def run(ctx):
+        bus, seq, regs, ios, ioregs = _bus_state(ctx)
+        bus.io_regions_check = True
+        r = _mk_region("n", cls=S.SoCIORegion); name = Name(z3.Int("name"))
+        ctx.assume((r.origin >= 0) & (r.size >= 1) & (r.size_pow2 >= r.size))
+        dup = z3.Or(regs.has(name.t), ioregs.has(name.t))
+        _install_overlap(bus, ioregs)
+        a = z3.Int("a")
+        ro, rp, rl = toint(r.origin), toint(r.size_pow2), tobool(r.linker)
+        ovl = z3.Exists([a], z3.And(0 <= a, a < ios.len, z3.Not(ios.fn["linker"](a)), z3.Not(rl), ov_t(ios.fn["origin"](a), ios.fn["size_pow2"](a), ro, rp)))
+        try:
+            S.SoCBusHandler.add_region(bus, name, r)
+        except S.SoCError:
+            elab.restore_stderr(); stats["raised"] += 1
+            ctx.check("raise=>(duplicate-name-or-window-overlaps-an-existing-IO-region)", z3.Or(dup, ovl))
+            ctx.check("raise.regions-unchanged", z3.BoolVal(bus.regions is regs and not regs.extra))
+            return
+        stats["accepted"] += 1
+        ctx.check("post.name-was-not-used-by-any-region-or-IO-region", z3.Not(dup))
+        ctx.check("post.added-exactly-this-IO-region-under-this-name;regions-unchanged", z3.BoolVal(bus.io_regions is ioregs and len(ioregs.extra) == 1 and ioregs.extra[0][0] is name and ioregs.extra[0][1] is r and bus.regions is regs and not regs.extra))
+        ctx.check("post.invariant(IO-regions-pairwise-disjoint-windows)", _disjoint(ioregs))
+        ctx.check("post.window-disjoint-from-every-existing-non-linker-IO-region", z3.Not(ovl))
+        if wrong: ctx.check("wrong.accepted=>no-IO-region-before", ios.len == 0)
+    paths, obl = explore(run, max_paths=4000)
+    return paths, obl, stats
+
+def c_add_io():
+    return _wrap("add_region[SoCIORegion]", _run_add_io, ["litex.soc.integration.soc.SoCBusHandler.add_region (SoCIORegion branch)", "litex.soc.integration.soc.SoCBusHandler.check_regions_overlap (loop-cut, inlined)"],
+                 "arbitrary handler state satisfying the class invariant; symbolic IO region", need=("loop0.init", "loop0.step", "loop1.init", "loop1.step"),
+                 extra_cover=lambda s: s["accepted"] >= 1 and s["raised"] >= 2)
+
+def _run_add_other(wrong):
+    stats = dict(raised=0, accepted=0)
+    def run(ctx):
+        bus, seq, regs, ios, ioregs = _bus_state(ctx); bus.io_regions_check = True
+        name = Name(z3.Int("name"))
+        for obj in (object(), None, 0x1000, S.SoCCSRRegion(0, 32, None)):
+            try: S.SoCBusHandler.add_region(bus, name, obj)
+            except S.SoCError: elab.restore_stderr(); stats["raised"] += 1
+            else: stats["accepted"] += 1
+        ctx.check("post.object-that-is-no-SoCRegion-is-never-accepted", z3.BoolVal(stats["accepted"] == 0))
+        ctx.check("post.state-unchanged", z3.BoolVal(bus.regions is regs and not regs.extra and bus.io_regions is ioregs and not ioregs.extra))
+        if wrong: ctx.check("wrong.name-unused", z3.Not(z3.Or(regs.has(name.t), ioregs.has(name.t))))
+    paths, obl = explore(run)
+    return paths, obl, stats
+def c_add_other():
+    return _wrap("add_region[not-a-region]", _run_add_other, ["litex.soc.integration.soc.SoCBusHandler.add_region (unsupported-object branch)"], "arbitrary handler state; four objects that are not SoCRegion instances",
+                 extra_cover=lambda s: s["raised"] >= 4)
+
 def cases(tier):
-    cs = [Case("check_region_is_in(proof)", c_is_in), Case("check_region_is_io(proof)", c_is_io)]
+    cs = [Case("check_region_is_in(proof)", c_is_in), Case("check_region_is_io(proof)", c_is_io),
+          Case("add_region(proof,fixed-origin,io-rule,names)", c_add_fixed), Case("add_region(proof,SoCIORegion)", c_add_io), Case("add_region(proof,not-a-region)", c_add_other)]
     return cs
 
 ASSUMPTIONS = []
